@@ -119,6 +119,13 @@ CHECKS = {
         "One generated model family; outputs alphabet listed in mc/props/c20.py.",
         "5/C20",
     ),
+    "C08": (
+        "model_checking",
+        "explicit-state exploration of all call histories up to depth 2/3 over an 11-operation alphabet on the real code, with bit-identity of outputs and full-snapshot equality of inputs checked after every operation; fresh-process repetition under varied hash seeds",
+        "Every sequence of operations (runs of two different projects, model deep-copy / pickle round trips, result copies and save/load, scenario, zero-uncertainty sampling, optimisation, calibration) up to the depth bound is executed from fresh objects; after each operation the outputs must be bit-identical to those of the same operation from the initial state and every input object must be structurally unchanged. No state merging is performed, so hidden global state cannot be abstracted away.",
+        "Two generated projects; the fresh-process clause is repetition (3 sub-processes), not enumeration.",
+        "5/C08",
+    ),
 }
 
 PENDING_REASON = "check not built yet in this session (see DESIGN.md section 8 for the build order); no claim is made"
